@@ -130,6 +130,7 @@ func pagedApp(rc *rcase) *app.App {
 	code = append(code, codec.Ins{Op: codec.INCMP, S1: ">", S2: "nx"})
 	code = append(code, codec.Ins{Op: codec.INCMP, S1: "<", S2: "pv"})
 	code = append(code, codec.Ins{Op: codec.INCMP, S1: "other", S2: "go"})
+	code = append(code, codec.Ins{Op: codec.INCMP, S1: "lg", S2: "lg"})
 	a.AddNode(&app.Node{Name: "root", Code: code, Template: rc.template()})
 	// a second paginated node with a different sink (a zero-size symbol when root pages its menu, and vice versa)
 	var oc []codec.Ins
@@ -154,6 +155,20 @@ func pagedApp(rc *rcase) *app.App {
 	a.AddNode(&app.Node{Name: "_catch", Template: "CATCHPAGE", Code: []codec.Ins{{Op: codec.HALT}, {Op: codec.INCMP, S1: "_", S2: "*"}}})
 	for l, t := range rc.Labels {
 		a.Labels[l] = t
+	}
+	// a node that switches the session to Norwegian and returns; every label has a longer Norwegian text
+	a.AddNode(&app.Node{Name: "lg", Template: "language", Code: []codec.Ins{{Op: codec.LOAD, S1: "setlang", N: 8}, {Op: codec.MOVE, S1: "_"}}})
+	a.Funcs["setlang"] = &app.FuncSpec{Sym: "setlang", Kind: "lang", Codes: []string{"nor"}, FlagSet: [][]uint32{{7}}}
+	a.Trans["nor"] = map[string]string{}
+	for l, t := range rc.Labels {
+		a.Trans["nor"]["m:"+l] = t + " på norsk"
+	}
+	for _, br := range []*[2]string{rc.Next, rc.Prev} {
+		if br != nil {
+			if _, ok := a.Trans["nor"]["m:"+br[1]]; !ok {
+				a.Trans["nor"]["m:"+br[1]] = br[1] + " (videre)"
+			}
+		}
 	}
 	a.FlagCount = 1
 	a.Finalize()
@@ -327,6 +342,49 @@ func engineWalk(rc *rcase, size uint32, drv string, c *vk.Ctx) (string, string, 
 			}
 			c.Count("engine_revisit_walks", 1)
 		}
+	}
+	// language: a session that switches to another language after it has browsed this node must from then on see
+	// exactly the pages of a session that had that language from the start (labels, and with them the page breaks,
+	// differ from the first language)
+	if k >= 1 && rc.Next != nil {
+		mkd := func(cf app.Config) (app.Driver, func()) {
+			if drv == "long" {
+				d := app.NewLongLived(a, cf)
+				return d, func() { d.Close() }
+			}
+			bx, _ := app.NewBackend(drv)
+			pr := app.NewPerRequest(a, cf, bx)
+			pr.SkipStoredRead = true
+			return pr, func() { pr.Close(); bx.Cleanup() }
+		}
+		cfgN := cfg
+		cfgN.Language = "nor"
+		dn, closeN := mkd(cfgN)
+		defer closeN()
+		dl, closeL := mkd(cfg)
+		defer closeL()
+		dl.Request([]byte(""))
+		if k > 1 {
+			dl.Request([]byte("nx"))
+		}
+		ref := dn.Request([]byte(""))
+		got := dl.Request([]byte("lg"))
+		c.Count("engine_requests", 4)
+		for page := 0; page < 200; page++ {
+			if got.Panic != "" {
+				return got.PanicSig + ":language-walk", "panic after a language switch: " + got.Panic, k
+			}
+			if got.Out != ref.Out || (got.FlushErr == "") != (ref.FlushErr == "") || (got.ExecErr == "") != (ref.ExecErr == "") {
+				return "language-switch-page-differs:" + pageKind(rc), fmt.Sprintf("size %d: page %d after switching the session to Norwegian: %s; a session that is Norwegian from the start: %s", size, page, got.Brief(), ref.Brief()), k
+			}
+			if ref.ExecErr != "" || ref.FlushErr != "" || strings.Contains(ref.Out, "CATCHPAGE") {
+				break
+			}
+			ref = dn.Request([]byte("nx"))
+			got = dl.Request([]byte("nx"))
+			c.Count("engine_requests", 2)
+		}
+		c.Count("engine_language_walks", 1)
 	}
 	return "", "", k
 }
